@@ -99,6 +99,10 @@ def oracle(ctx, table, text, stmt, conn=None):
         return
     desc = cur.description
     rows = cur.fetchall()
+    if desc is None:
+        ctx.record_violation('description-missing', 'no description after executing %s (%d rows)' % (text, len(rows)),
+                             payload=SqlCase([table], text).payload())
+        return
     bad = [r for r in rows if len(r) != len(desc)]
     if bad:
         ctx.record_violation('row-width', 'row of width %d under a description of width %d for %s' % (len(bad[0]), len(desc), text),
@@ -168,7 +172,7 @@ def ledger_wildcard_layer(ctx):
             ctx.evaluations += 1
             try:
                 cur = conn.execute(q)
-                names = [c.name for c in cur.description]
+                names = [c.name for c in (cur.description or [])]
                 rows = cur.fetchall()
             except Exception as exc:  # noqa: BLE001
                 ctx.record_violation('wildcard-raises-%s' % type(exc).__name__, '%s: %r' % (q, exc), payload={'query': q})
@@ -180,8 +184,44 @@ def ledger_wildcard_layer(ctx):
                 ctx.record_violation('wildcard-row-width', '%s: rows are not as wide as the description' % q, payload={'query': q})
 
 
+def statement_kind_layer(ctx):
+    """BALANCES and JOURNAL are SELECT statements in disguise: their columns are named by the same rule (the name of an
+    expression column parses back to the expression that computes it)"""
+    import ledgers
+    from beanquery import compiler
+    text, entries, errors, options = ledgers.gen_ledger(ctx.rng, ntxn=6)
+    conn = ledgers.connect(entries, errors, options)
+    for stmt_text in ('BALANCES', 'BALANCES AT cost', 'BALANCES AT units FROM year >= 2019', "JOURNAL", "JOURNAL 'Assets'",
+                      "JOURNAL AT cost", "JOURNAL 'Assets' AT units", "JOURNAL 'Expenses' AT cost FROM year >= 2019"):
+        stmt = parser.parse(stmt_text)
+        select = compiler.transform_balances(stmt) if isinstance(stmt, ast.Balances) else compiler.transform_journal(stmt)
+        ctx.evaluations += 1
+        ctx.count('statement-kinds')
+        try:
+            cur = conn.execute(stmt_text)
+            desc = cur.description
+            rows = cur.fetchall()
+        except Exception as exc:  # noqa: BLE001
+            ctx.record_violation('statement-kind-raises', '%s: %r' % (stmt_text, exc))
+            continue
+        if desc is None or len(desc) != len(select.targets) or any(len(r) != len(desc) for r in rows):
+            ctx.record_violation('description-length', '%s: %r described for %d targets' % (stmt_text, desc, len(select.targets)))
+            continue
+        for col, t in zip(desc, select.targets):
+            if isinstance(t.expression, ast.Column):
+                ok = col.name == t.expression.name
+            else:
+                try:
+                    ok = parser.parse('SELECT ' + col.name).targets[0].expression == t.expression
+                except Exception:  # noqa: BLE001
+                    ok = False
+            if not ok:
+                ctx.record_violation('naming-rule', '%s: column named %r for target %r' % (stmt_text, col.name, t.expression))
+
+
 def run(ctx):
     corpus_layer(ctx)
+    statement_kind_layer(ctx)
     ledger_wildcard_layer(ctx)
     rng = ctx.rng
     table = None
